@@ -21,6 +21,8 @@
 package forwarding
 
 import (
+	"errors"
+
 	errorsmod "cosmossdk.io/errors"
 	sdk "github.com/cosmos/cosmos-sdk/types"
 
@@ -55,8 +57,14 @@ func (a *InternalAttributes) Validate() error {
 		return core.ErrEmptyString.Wrap("invalid recipient address")
 	}
 
-	if _, err := sdk.AccAddressFromBech32(a.Recipient); err != nil {
+	recipient, err := sdk.AccAddressFromBech32(a.Recipient)
+	if err != nil {
 		return errorsmod.Wrapf(err, "invalid recipient address")
+	}
+
+	// Forwarding to the module itself would leave the funds on the orbiter account.
+	if recipient.Equals(core.ModuleAddress) {
+		return errors.New("recipient cannot be the orbiter module account")
 	}
 
 	return nil
